@@ -7,6 +7,7 @@ from ..rules import pure_params
 from .c08 import before_after, calls_named, return_order
 
 ID = "C10"
+ANCHORS = 'variant_effect.substitution_effect,variant_effect.deletion_effect,variant_effect.insertion_effect'.split(",")
 MIN_INSTANCES = 16
 EXPLANATION = (
     "R-MASK: abstract interpretation over element-value sets of the indicator tensors in deletion_effect "
